@@ -3,7 +3,7 @@ from __future__ import annotations
 
 import ast
 
-from ..an import avoiding_path, flows_from_calls, is_method_call, reaching_defs
+from ..an import avoiding_path, flows_from_calls, is_method_call, reaching_defs, value_alts
 from ..cfg import calls_at
 from ..core import Checker
 from ..loader import Func, norm, walk_expr, walk_own
@@ -60,11 +60,27 @@ def _walk(ck: Checker) -> None:
     r = g.reach([d for lab, d in rh.succ if lab == "T"], skip_node=lambda x: x.id == an.id, skip_edge=lambda a, l, b: l == "exc")
     ck.require(rh.id not in r, "C02.walk", bt, rh, "every built file is added to the tree (no size/name filter)", "a built file can be skipped without being added to the tree (e.g. empty files dropped)", witness=g.fmt_path(g.path_to(r, rh.id)) if rh.id in r else None, construct="for fname, (meta, hi) in objects.items() / NODROP")
     fname = norm(rh.ast.target.elts[0]) if isinstance(rh.ast.target, ast.Tuple) else None
-    keyalts = [norm(a) for a in expand1(prog, bt, ac.args[0], levels=1)]
-    ck.require(any(k == f"(*rel_key, {fname})" for k in keyalts), "C02.walk", bt, an, "tree key is (*relative dir parts, file name)", f"tree key is {keyalts}")
-    # rel_key derivation
-    rk = [n for n in g.nodes.values() if n.kind == "stmt" and isinstance(n.ast, (ast.Assign, ast.AnnAssign)) and norm(n.ast.targets[0] if isinstance(n.ast, ast.Assign) else n.ast.target) == "rel_key" and wh.id in n.loops]
-    nontrivial = [n for n in rk if not (isinstance(n.ast.value, ast.Tuple) and not n.ast.value.elts)]
+    keyalts = [a for a in value_alts(g, an, ac.args[0], depth=2)]
+    ktuple = next((a for a in keyalts if isinstance(a, ast.Tuple) and len(a.elts) == 2 and isinstance(a.elts[0], ast.Starred) and norm(a.elts[1]) == fname), None)
+    ck.require(ktuple is not None, "C02.walk", bt, an, "tree key is (*relative dir parts, file name)", f"tree key is {[norm(a) for a in keyalts]}")
+    # relative-key derivation: every definition that can reach the key's prefix
+    def closure_defs(at, name, seen=None):
+        seen = seen if seen is not None else set()
+        out = []
+        for d in reaching_defs(g, at.id, name):
+            if d.id in seen:
+                continue
+            seen.add(d.id)
+            v = getattr(d.ast, "value", None)
+            if isinstance(v, ast.Name):
+                out += closure_defs(d, v.id, seen)
+            else:
+                out.append(d)
+        return out
+
+    rk_name = norm(ktuple.elts[0].value) if ktuple is not None and isinstance(ktuple.elts[0].value, ast.Name) else None
+    rk = closure_defs(an, rk_name) if rk_name else []
+    nontrivial = [n for n in rk if not (isinstance(getattr(n.ast, "value", None), ast.Tuple) and not n.ast.value.elts)]
     ck.floor("C02.walk", len(nontrivial), 1, "relative key derivations")
     for n in nontrivial:
         v = n.ast.value
@@ -82,20 +98,42 @@ def _walk(ck: Checker) -> None:
         # guard: only when root != path
         from ..an import cut
 
-        w = cut(g, [n.id], lambda tt, lab: tt.kind == "test" and norm(tt.ast) in (f"{root} != path", f"path != {root}") and lab == "T", start=wh.id)
+        from ..an import eq_edge
+
+        w = cut(g, [n.id], lambda tt, lab: eq_edge(tt, lab, root, "path") is False, start=wh.id)
         ck.require(w is None, "C02.walk", bt, n, "slicing is applied only to proper sub-directories (root != path)", "relative-key slicing is applied to the top-level root as well", construct=f"{n.text()} / root != path")
     # meta
     metas = [c for c in walk_own(bt.node) if isinstance(c, ast.Call) and call_name(c) == "Meta" and any(k.arg == "nfiles" for k in c.keywords) and any(k.arg == "size" for k in c.keywords)]
     ck.floor("C02.meta", len(metas), 1, "tree Meta constructions")
+    size_name = None
     for m in metas:
         kw = {k.arg: k.value for k in m.keywords}
-        ck.require(norm(kw["nfiles"]) == "len(tree)" and norm(kw["size"]) == "size", "C02.meta", bt, m, "nfiles=len(tree), size=accumulated size", f"tree meta is {norm(m)}")
-    augs = [n for n in g.nodes.values() if n.kind == "stmt" and isinstance(n.ast, ast.AugAssign) and norm(n.ast.target) == "size"]
-    ok = bool(augs) and all(rh.id in a.loops and isinstance(a.ast.op, ast.Add) and "meta.size" in norm(a.ast.value) for a in augs)
-    if ok:
-        aid = {a.id for a in augs}
-        r = g.reach([d for lab, d in rh.succ if lab == "T"], skip_node=lambda x: x.id in aid, skip_edge=lambda a, l, b: l == "exc")
-        ok = rh.id not in r
+        ck.require(norm(kw["nfiles"]) == "len(tree)" and isinstance(kw["size"], ast.Name), "C02.meta", bt, m, "nfiles=len(tree), size=accumulated size", f"tree meta is {norm(m)}")
+        if isinstance(kw["size"], ast.Name):
+            size_name = kw["size"].id
+
+    def accumulates_rows(name: str, depth: int = 0) -> bool:
+        """`name` grows by the size of every row added in the row loop (directly, or through a per-step subtotal)."""
+        if depth > 3:
+            return False
+        augs_ = [n for n in g.nodes.values() if n.kind == "stmt" and isinstance(n.ast, ast.AugAssign) and norm(n.ast.target) == name and isinstance(n.ast.op, ast.Add)]
+        if not augs_:
+            return False
+        for a in augs_:
+            v = a.ast.value
+            if rh.id in a.loops and ".size" in norm(v):
+                r_ = g.reach([d for lab, d in rh.succ if lab == "T"], skip_node=lambda x: x.id == a.id, skip_edge=lambda p_, l, q_: l == "exc")
+                if rh.id in r_:
+                    return False
+                continue
+            alts = [x for x in value_alts(g, a, v, depth=3) if isinstance(x, ast.Name)]
+            if wh.id in a.loops and any(accumulates_rows(x.id, depth + 1) for x in alts if x.id != name):
+                continue
+            return False
+        return True
+
+    ok = size_name is not None and accumulates_rows(size_name)
+    augs = [n for n in g.nodes.values() if n.kind == "stmt" and isinstance(n.ast, ast.AugAssign) and norm(n.ast.target) == (size_name or "size")]
     ck.require(ok, "C02.meta", bt, augs[0] if augs else bt.node, "total size accumulates every added file's size", "total size is not accumulated for every row added to the tree")
     dg = [n for n in g.nodes.values() for c in calls_at(n) if is_method_call(c, "digest") and norm(c.func.value) == "tree"]
     rets = [n for n in g.nodes.values() if n.kind == "stmt" and isinstance(n.ast, ast.Return) and not n.loops and any(isinstance(x, ast.Name) and x.id == "tree" for x in walk_expr(n.ast))]
